@@ -255,6 +255,8 @@ def check_c16(tier):
             for k, ch in enumerate("#$?"):
                 at = braces[k % len(braces)]
                 extra.append(("%s#badchar%s" % (name, ch), text[:at.pos] + ch + text[at.pos:]))
+            extra.append(("%s#trailing-brace" % name, text + "}\n"))
+            extra.append(("%s#leading-brace" % name, "{ " + text))
         extra.append(("minimal", docs.MINIMAL))
         extra.append(("special", docs.SPECIAL))
         extra.append(("special-relaid", dsltok.relayout(docs.SPECIAL, "fewlines", 1)))
